@@ -24,6 +24,9 @@ CHECKS = {
  "C20": (MC, "exhaustive enumeration of (public entry point x option combination x array layout) with before/after snapshots of every array argument, plus breadth-first search over store / transform / call histories on Field, SRF, Krige and CondSRF objects with snapshots of all earlier results",
          "Every enumerated call is executed with C-contiguous float64 arrays already in target shape (the layout that lets np.asarray alias), Fortran-ordered and read-only arrays (a write then raises); all argument roles are compared bit-wise after the call. The history search executes every sequence (depth 2, thorough 3) of call(store, post_process) / transform(method, source, target, process, keep_mean) / delete and checks that every array returned earlier and every stored field other than the named target is bit-identical.",
          "entry points and options as enumerated in the evidence; vtk export / plotting not explored", "5/C20"),
+ "C03": (EX, "bounded exhaustive enumeration of (class x dim x optional-argument grid x var/len_scale/nugget/rescale x lag alphabet) against mpmath closed forms written from the docstrings; identities between all public model functions; user subclasses via each defining function",
+         "Full product over 17 classes, dims 1-3, optional arguments incl. both (dimension dependent) bounds, parameter sets and a lag alphabet placed at every branch boundary of the code (zero lag and its isclose zone, support edge +-1e-12, Matern nu>20 switch, exponential-integral x>30 branch, far tail); integral scales by independent quadrature; axis / spatial / Yadrenko variants via explicit rotation matrices and the chordal formula.",
+         "lags and parameters are grids; mpmath and the docstring formulas are trusted; rtol 1e-8 for special functions", "5/C03"),
 }
 PENDING = {}
 def main():
